@@ -33,62 +33,56 @@ def extract(g, X):
     strl = X.strip_comments(X.read("pdf/src/parser/lexer/str.rs"))
 
     # ---- lexer/mod.rs: white-space and delimiter classes used by Lexer::next_word -------------------
+    B, iv = X.BYTE, X.int_value
+
     def ws():
-        b = X.fn_body(lexer, "is_whitespace")
-        m = re.search(r"matches!\(\s*b\s*,\s*([^)]*)\)", b)
-        return cl(X.alt_set(m.group(1)))
+        return cl(X.ordered(X.pred_fn_set(lexer, "is_whitespace"), [0, 32, 13, 10, 9, 12]))
     g.attempt([("font_lexer_ws", "list N")], "font: lexer/mod.rs:is_whitespace", ws)
 
     def delims():
         b = X.fn_body(lexer, "is_delimiter")
-        m = re.search(r'b("(?:\\.|[^"\\])*")\.contains', b)
-        return cl(rust_str(m.group(1)))
+        return cl(X.ordered(X.option_pred_set(b, lexer), [40, 41, 60, 62, 91, 93, 123, 125, 47, 37]))
     g.attempt([("font_delims", "list N")], "font: lexer/mod.rs:Lexer::is_delimiter", delims)
 
     def comment():
         b = X.fn_body(lexer, "next_word")
-        m = re.search(r"while\s+self\.buf\.get\(pos\)\s*==\s*Some\(&(" + X.LIT + r")\)", b)
-        e = re.search(r"position\(\|&b\|\s*((?:b\s*==\s*" + X.LIT + r"\s*(?:\|\|\s*)?)+)\)", b)
-        ends = [X.lit(t) for t in re.findall(r"b\s*==\s*(" + X.LIT + r")", e.group(1))]
-        if not re.search(r"None\s*=>\s*pos\s*=\s*self\.buf\.len\(\)", b):
+        m = re.search(r"while\s+self\.buf\.get\(\s*(\w+)\s*\)\s*==\s*Some\(\s*&?\s*(" + B + r")\s*\)", b)
+        pos = m.group(1)
+        (params, expr), = X.closures(b, "position")
+        ends = X.ordered(X.byte_set(expr, X.closure_var(params), lexer), [10, 13])
+        if not re.search(r"None\s*=>\s*\{?\s*" + pos + r"\s*=\s*self\.buf\.len\(\)", b):
             raise ValueError("an unterminated comment no longer runs to the end of the buffer")
-        n = re.search(r"self\.buf\[pos\]\s*==\s*(" + X.LIT + r")", b)
-        pair = re.search(r'slice\s*==\s*b"(..)"\s*\|\|\s*slice\s*==\s*b"(..)"', b)
-        return (str(X.lit(m.group(1))), cl(ends), str(X.lit(n.group(1))),
-                cl([ord(pair.group(1)[0]), ord(pair.group(2)[0])]))
+        n = re.search(r"self\.buf\[\s*" + pos + r"\s*\]\s*==\s*(" + B + r")", b)
+        pair = re.search(r'(\w+)\s*==\s*(b"[^"]*"|&?\[[^\]]*\])\s*\|\|\s*\1\s*==\s*(b"[^"]*"|&?\[[^\]]*\])', b)
+        p1, p2 = X.byte_string(pair.group(2)), X.byte_string(pair.group(3))
+        if len(p1) != 2 or len(p2) != 2 or p1[0] != p1[1] or p2[0] != p2[1]:
+            raise ValueError("double delimiters")
+        return (str(iv(m.group(2))), cl(ends), str(iv(n.group(1))), cl(X.ordered([p1[0], p2[0]], [60, 62])))
     g.attempt([("font_comment_start", "N"), ("font_comment_ends", "list N"), ("font_name_start", "N"), ("font_double_delims", "list N")],
               "font: lexer/mod.rs:Lexer::next_word", comment)
 
     # ---- lexer/str.rs: hex strings -----------------------------------------------------------------------
     def hexws():
         b = X.fn_body(strl, "next_non_whitespace_char")
-        m = re.search(r"while\s+(.*?)\{", b, flags=re.S)
-        vals = [X.lit(t) for t in re.findall(r"\w+\s*==\s*(" + X.LIT + r")", m.group(1))]
+        m = re.search(r"\bwhile\s+(.*?)\{", b, flags=re.S)
+        vals = X.byte_set(m.group(1), None, strl, body=b)
         if not vals:
             raise ValueError("no white-space bytes")
-        return cl(vals)
+        return cl(X.ordered(vals, [32, 9, 10, 13, 12, 0]))
     g.attempt([("font_hex_ws", "list N")], "font: lexer/str.rs:HexStringLexer::next_non_whitespace_char", hexws)
 
     def hexranges():
         b = X.fn_body(strl, "next_hex_byte")
-        out = {}
-        for var in ("c1", "c2"):
-            arms = []
-            for m in re.finditer(r"(" + X.LIT + r")\s*\.\.=\s*(" + X.LIT + r")\s*=>\s*" + var + r"\s*-\s*(" + X.LIT + r")\s*(?:\+\s*(" + X.LIT + r"))?\s*,", b):
-                lo, hi, sub = X.lit(m.group(1)), X.lit(m.group(2)), X.lit(m.group(3))
-                add = X.lit(m.group(4)) if m.group(4) else 0
-                if sub != lo:
-                    raise ValueError("arm subtracts %d, range starts at %d" % (sub, lo))
-                arms.append((lo, hi, add))
-            out[var] = arms
-        if not out["c1"] or out["c1"] != out["c2"]:
-            raise ValueError("nibble arms differ: %r" % (out,))
-        end = re.findall(r"(" + X.LIT + r")\s*=>\s*return\s+Ok\(None\)", b)
-        end2 = re.search(r"(" + X.LIT + r")\s*=>\s*\{\s*self\.back\(\)\?;\s*0\s*\}", b)
-        if len(end) != 1 or X.lit(end[0]) != X.lit(end2.group(1)):
+        tabs = X.hex_nibble_tables(b)
+        rows = [X.ordered_by_key(r, [48, 65, 97]) for r, _, _ in tabs]
+        if len(rows) != 2 or rows[0] != rows[1]:
+            raise ValueError("nibble arms differ: %r" % (rows,))
+        end = [v for v, e in tabs[0][1] if re.fullmatch(r"return\s+Ok\(\s*None\s*\)\s*;?", e)]
+        end2 = [v for v, e in tabs[1][1] if re.fullmatch(r"self\.back\(\)\?\s*;\s*0", e)]
+        if len(end) != 1 or end != end2:
             raise ValueError("terminator arms")
-        sh = re.search(r"\(high_nibble\s*<<\s*(\d+)\)\s*\|\s*low_nibble", b)
-        return X.ctuples(out["c1"]), str(X.lit(end[0])), sh.group(1)
+        sh = re.search(r"\(\s*\w+\s*<<\s*(\d+)\s*\)\s*\|\s*\w+", b)
+        return X.ctuples(rows[0]), str(end[0]), sh.group(1)
     g.attempt([("font_hex_ranges", "list (N * N * N)"), ("font_hex_end", "N"), ("font_hex_shift", "N")],
               "font: lexer/str.rs:HexStringLexer::next_hex_byte", hexranges)
 
@@ -124,9 +118,14 @@ def extract(g, X):
 
     def cidlens():
         b = X.fn_body(font, "parse_cid")
-        two = re.search(r"(\d+)\s*=>\s*Ok\(u16::from_be_bytes", b)
-        one = re.search(r"(\d+)\s*=>\s*Ok\(b\[0\]\s*as\s*u16\)", b)
-        return two.group(1), one.group(1)
+        two = one = None
+        for arm in X.match_arms(b, r"\w+\.len\(\)"):
+            if arm.guard is None and len(arm.pats) == 1 and re.fullmatch(r"\d+", arm.pattern):
+                if re.match(r"Ok\(\s*u16::from_be_bytes", arm.expr):
+                    two = arm.pattern
+                elif re.fullmatch(r"Ok\(\s*\w+\[0\]\s*as\s*u16\s*\)", arm.expr):
+                    one = arm.pattern
+        return two, one
     g.attempt([("font_cid_len_be", "N"), ("font_cid_len_single", "N")], "font: font.rs:parse_cid", cidlens)
 
     def kws():
